@@ -31,6 +31,8 @@ type VOpt struct {
 	Present float64 // probability that a non-required field is written (0 => 0.7)
 	// OddBools: a foreign writer that sends bytes other than 0/1 for true (the decoder keeps the byte as it is)
 	OddBools bool
+	// Deep > 0: a chain of nested structs that many levels deep (definitions that contain themselves only)
+	Deep int
 }
 
 type vgen struct {
@@ -127,7 +129,9 @@ func GenValue(c *Corpus, s *StructDef, seed uint64, o VOpt) *W {
 		o.MaxDepth = 4
 	}
 	v := &vgen{r: NewRng(Mix(seed, 0x7a1)), c: c, o: o, rem: o.Budget}
-	if s.Cluster >= 0 && o.Budget >= 1500 && NewRng(Mix(seed, 0x5ca1e)).Chance(1, 5) {
+	if s.Cluster >= 0 && o.Deep > 0 {
+		v.deep, v.o.MaxDepth = o.Deep, o.Deep
+	} else if s.Cluster >= 0 && o.Budget >= 1500 && NewRng(Mix(seed, 0x5ca1e)).Chance(1, 5) {
 		// definitions that contain themselves: a deep chain one time in five
 		v.deep = []int{70, 520, 1030, 1500}[NewRng(Mix(seed, 0xdee9)).Intn(4)]
 		v.o.MaxDepth = v.deep
@@ -247,6 +251,22 @@ func structNameIn(t *T) string {
 		return structNameIn(t.Key)
 	}
 	return ""
+}
+
+// ChainLink reports whether values of s can be chains through s's own cluster: s has a non-required field that leads
+// to a definition of the cluster (the field a deep value follows).
+func ChainLink(c *Corpus, s *StructDef) bool {
+	if s.Cluster < 0 {
+		return false
+	}
+	for _, f := range s.Fields {
+		if n := structNameIn(f.T); n != "" && f.Req != Required {
+			if d := c.Get(n); d != nil && d.Cluster == s.Cluster {
+				return true
+			}
+		}
+	}
+	return false
 }
 
 func involvesStruct(t *T) bool {
